@@ -326,6 +326,30 @@ pub fn run(ctx: &mut Ctx) {
             case += 1;
         }
     }
+    // ---- very regular long lists: far more than 16257 entries, yet a few hundred bytes once compressed
+    for (k, n) in [16_257usize, 16_258, 20_000, 70_000, 200_000].iter().enumerate() {
+        for codec in R::CODECS {
+            if ctx.mine(case) {
+                ctx.begin(case);
+                let mut rng = ctx.rng("c06.regular", (k * 10) as u64 + u64::from(codec));
+                let len = rng.range(1, 100) as u32;
+                let start = rng.below(1000);
+                let list: Vec<REntry> = (0..*n as u64)
+                    .map(|i| REntry {
+                        tile_id: start + i,
+                        offset: i * u64::from(len),
+                        length: len,
+                        run_length: 1,
+                    })
+                    .collect();
+                check_write(ctx, &list, codec, starts[(k + codec as usize) % 2 * 4], k % 2 == 1, &mut rng);
+                ctx.case(entries_fp(&list) ^ u64::from(codec), true);
+                ctx.count("regular_long_lists");
+                ctx.end(case);
+            }
+            case += 1;
+        }
+    }
     // ---- random lists 0 .. 10^4 (quick) / 10^5 (thorough) entries, all codecs, all start sizes
     let n = ctx.n(260, 5000);
     for i in 0..n {
